@@ -183,7 +183,20 @@ func checkC11(p *core.Program, r *core.Report) {
 	if ndel != 1 {
 		r.Fail(R3, "Hub.connections delete sites", "", fmt.Sprintf("expected exactly one delete site of the registry, found %d", ndel))
 	}
-	r.Floor(R3, 2)
+	// every reported end reaches the registry: no path of HandleConnectionClosed returns before the lookup
+	{
+		mustLookup := core.NewMust(p, 2, func(in ssa.Instruction) bool {
+			lk, ok := in.(*ssa.Lookup)
+			return ok && isConnsMap(lk.X)
+		})
+		key := "hub.HandleConnectionClosed examines the registry on every path"
+		if bad := core.MustPass(hcc, nil, mustLookup.Instr, nil); bad != nil {
+			r.Fail(R3, key, p.Pos(bad.Pos()), "a path of HandleConnectionClosed returns before the registry was examined: the ended connection stays registered, the SKI counts as connected for good and is never dialled or approved again")
+		} else {
+			r.OK(R3, key, p.Pos(hcc.Pos()), "lookup (and identity-checked delete) on every path")
+		}
+	}
+	r.Floor(R3, 3)
 
 	// R4
 	mn, mx, ok := pathCount(hcc, func(in ssa.Instruction) int {
@@ -308,6 +321,9 @@ func derivesFrom(v, root ssa.Value, depth int) bool {
 	}
 	switch x := v.(type) {
 	case *ssa.Call:
+		if derivesThroughHelper(x, 0, root, depth-1) {
+			return true
+		}
 		if x.Call.IsInvoke() && derivesFrom(x.Call.Value, root, depth-1) {
 			return true
 		}
@@ -317,6 +333,10 @@ func derivesFrom(v, root ssa.Value, depth int) bool {
 			}
 		}
 	case *ssa.Extract:
+		// i-th result of a repo helper: derives from root when the helper's i-th return values do
+		if c, ok := x.Tuple.(*ssa.Call); ok && derivesThroughHelper(c, x.Index, root, depth-1) {
+			return true
+		}
 		return derivesFrom(x.Tuple, root, depth-1)
 	case *ssa.Lookup:
 		return derivesFrom(x.X, root, depth-1)
@@ -470,4 +490,35 @@ func checkShipCloseOnce(p *core.Program, r *core.Report, R1, R2 string) bool {
 	}
 
 	return true
+}
+
+
+// derivesThroughHelper: root is a value inside the (module-local) static callee of c, and some non-constant
+// idx-th return value of that callee derives from it.
+func derivesThroughHelper(c *ssa.Call, idx int, root ssa.Value, depth int) bool {
+	callee := c.Call.StaticCallee()
+	if callee == nil || callee.Blocks == nil || depth <= 0 {
+		return false
+	}
+	ri, ok := root.(ssa.Instruction)
+	if !ok || ri.Parent() != callee {
+		return false
+	}
+	undo := core.BindCall(c)
+	defer undo()
+	found := false
+	core.EachInstr(callee, func(in ssa.Instruction) {
+		ret, isRet := in.(*ssa.Return)
+		if !isRet || idx >= len(ret.Results) || found {
+			return
+		}
+		rv := core.ResultOf(ret, idx)
+		if core.ConstOf(rv) != nil {
+			return
+		}
+		if derivesFrom(rv, root, depth) {
+			found = true
+		}
+	})
+	return found
 }
